@@ -1,7 +1,7 @@
 --------------------------- MODULE RevTree ---------------------------
 (* Revision trees: db/revtree.go (addRevision, winningRevision, pruneRevisions, Marshal/UnmarshalJSON),
    db/revision.go compareRevIDs, db/crud.go (Put, PutExistingRevWithConflictResolution, IsIllegalConflict,
-   updateWinningRevAndSetDocFlags, documentUpdateFunc: flags, then pruning to revs_limit).
+   updateWinningRevAndSetDocFlags, documentUpdateFunc: flags, pruning to revs_limit, Conflict/Branched set again).
    A revision is [g, d]: generation and digest rank (digests enter the code only through string
    comparison, generations through <, <=, +1 and the prune threshold arithmetic, for which the real
    generation value cfg.gv[g] is used).  A tree maps revision -> [p(arent), del(eted)].
@@ -162,7 +162,10 @@ Settle(i, m, t, tf, bt) ==
      THEN /\ cur' = [cur EXCEPT ![i] = Nil] /\ flags' = [flags EXCEPT ![i] = NoFlags] /\ wb' = [wb EXCEPT ![i] = Nil]
           /\ win' = [win EXCEPT ![i] = NoWin]
      ELSE \E w \in WinResults(tf) :
-            /\ cur' = [cur EXCEPT ![i] = w] /\ flags' = [flags EXCEPT ![i] = FlagsOf(tf, w)]
+            /\ cur' = [cur EXCEPT ![i] = w]
+            \* Deleted from the tree the winner was chosen on; Conflict and Branched are set again after pruning
+            \* (documentUpdateFunc: "if pruned > 0 { winningRevision; setFlag(Conflict); setFlag(Branched) }"; t = tf otherwise)
+            /\ flags' = [flags EXCEPT ![i] = [FlagsOf(tf, w) EXCEPT !.conf = FlagsOf(t, w).conf, !.br = FlagsOf(t, w).br]]
             /\ wb' = [wb EXCEPT ![i] = IF cfg.lvl = "db" /\ tf[w].del THEN Nil ELSE Look(bt, w)]   \* a stored tombstone is served bare
             /\ IF t = tf THEN win' = [win EXCEPT ![i] = WinOf(t, w)]
                ELSE \E w2 \in WinResults(t) : win' = [win EXCEPT ![i] = WinOf(t, w2)]
@@ -177,7 +180,7 @@ ImplPutHistT(i, ch, del, b) ==
   Settle(i, t, t, t, Tok2(ch[1], b))
 ImplPrune(i, k) == LET t == PruneTree(tree[i], k) IN Settle(i, t, t, t, btok)
 
-(* ---- database level: callback, then flags, then pruning to revs_limit, then store ---- *)
+(* ---- database level: callback, flags, pruning to revs_limit, Conflict/Branched again (Settle), then store ---- *)
 Commit(i, t1, bt) == LET t2 == IF cfg.lim > 0 THEN PruneTree(t1, cfg.lim) ELSE t1 IN Settle(i, t2, t2, t1, bt)
 PutHistOutcome(i, ch, del, nc) ==        \* "noop" | "conflict" | "badrev" | "ok"
   LET t == tree[i]  idx == BranchIdx(t, ch)  par == BranchParent(t, ch) IN
@@ -298,9 +301,11 @@ FlagBr(i)   == flags[i].br <=> Cardinality(Leaves(tree[i])) > 1
 WinFlags(i) == /\ (win[i].cf <=> Cardinality(LiveLeaves(tree[i])) > 1)
                /\ (win[i].br <=> Cardinality(Leaves(tree[i])) > 1)
 FlagsAgree == \A i \in Reps : DOMAIN tree[i] # {} => (FlagDel(i) /\ FlagConf(i) /\ FlagBr(i) /\ WinFlags(i))
-(* Named deviation of the code (documentUpdateFunc computes the flags, then prunes to revs_limit): when the
-   write that computed Branched also ages out the last other (tombstoned) branch, the stored flag is stale
-   until the next write.  The model is checked modulo this; on real state FlagsAgree itself is evaluated. *)
+(* A defect this check found and that was repaired (fix: recompute the conflict/branched flags after pruning): the
+   flags were computed before pruning to revs_limit, so the write that aged out the last other (tombstoned) branch
+   stored Branched = TRUE on a single-leaf document.  The model transcribes the repaired order and is checked against
+   FlagsAgree itself; the class predicate is kept so that, should the defect return, TLC (Trace_RevTree_Pm.cfg)
+   recognises it on real state and the check reports it under its fixed key. *)
 StaleBranched(i) == pre.on /\ pre.k = "write" /\ pre.i = i /\ flags[i].br /\ ~flags[i].conf
 FlagsAgreeModuloAgeing == \A i \in Reps : DOMAIN tree[i] # {} =>
   (FlagDel(i) /\ FlagConf(i) /\ WinFlags(i) /\ (FlagBr(i) \/ StaleBranched(i)))
